@@ -4,8 +4,8 @@
 #include "vh.hpp"
 typedef Goldilocks::Element E;
 typedef Goldilocks3::Element E3;
-static vh::Out *o;
-static long long ci = 0;
+static thread_local vh::Out *o;
+static thread_local long long ci = 0;
 static void ev(const char *op, const char *alias, const uint64_t *a, const uint64_t *b, int nb, const E3 &r)
 {
     uint64_t rr[3] = {r[0].fe, r[1].fe, r[2].fe};
@@ -29,11 +29,13 @@ int main(int argc, char **argv)
     if (argc < 3)
         return 2;
     auto cases = vh::read_cases(argv[1]);
-    vh::Out out(argv[2]);
+    return vh::run_partitioned(argv[2], [&](vh::Out &out, int tid_, int nth_) -> int {
     o = &out;
-    for (auto &c : cases)
+    for (size_t idx_ = 0; idx_ < cases.size(); idx_++)
     {
-        ci++;
+        auto &c = cases[idx_];
+        ci = (long long)idx_ + 1;
+        out.mute = (int)(idx_ % (size_t)nth_) != tid_; // every thread makes every call at (roughly) the same time; one of them records it
         const std::string &op = c[0];
         if (op == "batchinv")
         {
@@ -230,4 +232,5 @@ int main(int argc, char **argv)
         }
     }
     return 0;
+    });
 }
